@@ -39,7 +39,7 @@ func runC17(c *rules.Ctx) {
 	// ---- subscribers are run through the wrapper ---------------------------------------------------
 	const PC = "x/epochs/types.panicCatchingEpochHook"
 	c.HasCall(PC, "osmoutils.ApplyFuncIfNoError", []string{"ctx", "closure:epochstypes.panicCatchingEpochHook$1(hookFn,epochIdentifier,epochNumber)"}, true, "each subscriber call is wrapped by the cache-context helper", "")
-	c.CallArgN(PC+"$1", "dyn[0=^hookFn]", 1, "ctx", "inside the wrapper the subscriber receives the wrapper's (cache) context, not a captured one", 1, "")
+	c.ApplyFuncClosures("x/epochs/types", 1, "inside the wrapper the subscriber receives the wrapper's (cache) context, not a captured one")
 	c.CallArgN(PC+"$1", "dyn[0=^hookFn]", 2, "^epochIdentifier", "with the signalled identifier", 1, "")
 	c.CallArgN(PC+"$1", "dyn[0=^hookFn]", 3, "^epochNumber", "and the signalled epoch number", 1, "")
 	c.NoPanicOrErrorExit(PC, "a failing subscriber does not stop the block: the helper returns normally whatever the subscriber did")
